@@ -68,6 +68,14 @@ def cases(tier: str, seed: int) -> List[Dict[str, Any]]:
             for c in names:
                 out.append({"kind": "probe", "op": name, "cfg": cfg, "constraint": c, "seed": seed})
             out.append({"kind": "probe", "op": name, "cfg": cfg, "constraint": "", "seed": seed})
+    # dtype coordinate: the same rule in float16 / bfloat16 (scalars fitted to the precision of the dtype)
+    for name in CONSTRAINED_OPS:
+        op = OPS[name]
+        names = [c for c in op.coords["constraint"] if c not in (None, "")]
+        for lp in ("float16", "bfloat16"):
+            for cfg in lattice(op, 1, fixed={"dtype": lp, "constraint": None}, restrict={"sm_dtype": [None]}):
+                for c in names:
+                    out.append({"kind": "probe", "op": name, "cfg": cfg, "constraint": c, "seed": seed})
     for name in ("silu_glu", "scaled_dot_product_attention"):
         for cfg in lattice(OPS[name], d, fixed={"dtype": "float64"}):
             out.append({"kind": "fixed", "op": name, "cfg": cfg, "seed": seed})
@@ -255,6 +263,16 @@ def run_case(case: Dict[str, Any]) -> Dict[str, Any]:
         names = []
     want = d0["s"] if cname == "" or not names else rule(cname, d0["s"], [c0[k] for k in names])
     tol = 1e-10
+    lowp = cfg.get("dtype", "float64") != "float64"
+    if lowp:
+        from models.probe import TOL as _TOL
+
+        tol = 4 * _TOL[cfg["dtype"]]
+        ident += f"|dtype={cfg['dtype']}"
+        if max(d0["res"], d1["res"]) > _TOL[cfg["dtype"]] or any(
+                (v[0].get("res", 0.0) > _TOL[cfg["dtype"]] or v[0].get("noise", 0.0) > _TOL[cfg["dtype"]] / 4)
+                for dd in (d0, d1) for v in dd["grads"].values() if v):
+            return {"skipped": "low-precision fit too noisy to decide"}
     if cname == "":
         # empty string behaves like None
         if abs(d1["s"] - d0["s"]) > tol * abs(d0["s"]) or any(abs(c1[k] - c0[k]) > tol * abs(c0[k]) for k in c0 if c0[k]):
@@ -272,7 +290,28 @@ def run_case(case: Dict[str, Any]) -> Dict[str, Any]:
     # gradcheck: the gradient w.r.t. constrained inputs is the true derivative
     from checks._probe_common import deviations
 
-    if names and cname != "" and len(deviations(op.name, dict(cfg, dtype="float64", constraint=op.coords["constraint"][0]))) <= 1 and not viol:
+    if names and cname != "" and not viol and op.name not in ("dropout",):
+        # the function evaluated without autograd (inference, constant inputs) is the function that is differentiated
+        g5 = torch.Generator().manual_seed(5)
+        ccfg = dict(cfg, constraint=cname)
+        tt0 = op.make(ccfg, g5)
+        y_grad = op.unit({k: (v.clone().requires_grad_(True) if v.is_floating_point() and k in names else v.clone()) for k, v in tt0.items()}, ccfg).detach()
+        variants = {"inputs_without_grad": lambda: op.unit({k: v.clone() for k, v in tt0.items()}, ccfg)}
+        for gm_name, gm_ctx in (("no_grad", torch.no_grad), ("inference_mode", torch.inference_mode)):
+            def _run(gm_ctx: Any = gm_ctx) -> Any:
+                with gm_ctx():
+                    return op.unit({k: v.clone() for k, v in tt0.items()}, ccfg)
+            variants[gm_name] = _run
+        for vn, fn_ in variants.items():
+            try:
+                yv = fn_()
+            except Exception as e:  # noqa
+                viol.append(exception_violation(e, ident + f"|{vn}"))
+                continue
+            if yv.shape != y_grad.shape or not torch.equal(yv.detach(), y_grad):
+                viol.append({"key": ident + f"|forward_differs_without_autograd|{vn}", "msg": f"cfg={cfg}"})
+        steps += 3
+    if names and cname != "" and not lowp and len(deviations(op.name, dict(cfg, dtype="float64", constraint=op.coords["constraint"][0]))) <= 1 and not viol:
         g = torch.Generator().manual_seed(5)
         c1cfg = dict(cfg, constraint=cname)
         t = op.make(c1cfg, g)
